@@ -112,6 +112,9 @@ func c10Engine(c *lab.Ctx) {
 							cs.key, cs.plan = "retry", c03RetryPlans[crng.Intn(len(c03RetryPlans))]
 						case 6:
 							cs.key, cs.plan = "retry0", c03Retry0Plans[crng.Intn(len(c03Retry0Plans))]
+						case 7:
+							// the upstream answers and announces that the connection goes away (bolt go-away / HTTP/2 GOAWAY / Connection: close)
+							cs.key, cs.plan = "fast", crng.PickStr("ok:goaway", "d30:ok:goaway", "s503:goaway")
 						default:
 							cs.key, cs.plan = "fast", c03Plans[crng.Intn(len(c03Plans))]
 						}
